@@ -81,7 +81,9 @@ func trReplicaId(hexId string, r uint32) ([]byte, error) {
 }
 
 // tr_ingest{org, spans: [{trace, span, parent, service, name, status, start, end}], batches: [n1, n2, ...],
-//           replicas, replica_mode ("forest" | "trace"), chunk}
+//
+//	replicas, replica_mode ("forest" | "trace"), chunk}
+//
 // The span list is cut into consecutive batches of the given sizes (one OTLP export request each, a new
 // ResourceSpans whenever the service changes, so the enumerated order is the wire order).
 // replicas > 1: the forest is sent again under fresh ids: "forest" = fresh trace and span ids (many traces),
